@@ -24,6 +24,23 @@ var VerifDir = func() string {
 
 // KnownFinding identifies a recorded genuine defect: the classifier signature
 // plus the frozen set of witness hashes (concrete failing cases).
+// RepoDir is the repository under verification (VERIF_REPO overrides /repo: used to run the checks
+// against a scratch worktree carrying a seeded change).
+func RepoDir() string {
+	if r := os.Getenv("VERIF_REPO"); r != "" {
+		return r
+	}
+	return "/repo"
+}
+
+// OutDir is where evidence and replay files are written (VERIF_OUT overrides the framework directory).
+func OutDir() string {
+	if r := os.Getenv("VERIF_OUT"); r != "" {
+		return r
+	}
+	return VerifDir
+}
+
 type KnownFinding struct {
 	Property  string   `json:"property"`
 	Signature string   `json:"signature"`
@@ -145,7 +162,7 @@ func Main(id, tier string) int {
 			fmt.Printf("KNOWN-FINDING: property=%s %s -- %s (%d witnessed cases)\n", id, s, e.f.What, e.seen)
 		}
 	}
-	os.RemoveAll(filepath.Join(VerifDir, "replays", id))
+	os.RemoveAll(filepath.Join(OutDir(), "replays", id))
 	// replay artefacts for violations (first of each signature, at most 25 files)
 	written := 0
 	perSig := map[string]int{}
@@ -174,7 +191,7 @@ func Main(id, tier string) int {
 				continue
 			}
 			f := bySig[sg][pass]
-			dir := filepath.Join(VerifDir, "replays", id)
+			dir := filepath.Join(OutDir(), "replays", id)
 			os.MkdirAll(dir, 0o755)
 			path := filepath.Join(dir, f.Hash+".json")
 			var desc interface{}
@@ -253,8 +270,8 @@ func Main(id, tier string) int {
 		ev.Assumptions = []string{}
 	}
 	b, _ := json.MarshalIndent(&ev, "", " ")
-	os.MkdirAll(filepath.Join(VerifDir, "evidence"), 0o755)
-	os.WriteFile(filepath.Join(VerifDir, "evidence", id+".json"), b, 0o644)
+	os.MkdirAll(filepath.Join(OutDir(), "evidence"), 0o755)
+	os.WriteFile(filepath.Join(OutDir(), "evidence", id+".json"), b, 0o644)
 	fmt.Printf("%s %s: cases=%d nontrivial=%d states=%d transitions=%d validated=%d outcomes=%d exhaustive=%v failures=%d violations=%d wall=%.1fs\n",
 		id, tier, total.Evaluated, total.Nontrivial, total.States, total.Transitions, total.Validated, len(total.Outcomes), exhaustive, len(total.Failures), len(viol), time.Since(t0).Seconds())
 	if len(viol) > 0 {
